@@ -155,6 +155,7 @@ class ProductState:
             Dictionary of outcomes, where the state is key and its outcome measurement
         is the value (int)
         """
+        from photon_weave.state.custom_state import CustomState
         from photon_weave.state.polarization import Polarization, PolarizationLabel
 
         assert all(
@@ -202,7 +203,8 @@ class ProductState:
                 remaining_states.remove(state)
 
                 # Handle post measurement processes
-                if destructive:
+                # Custom states cannot be destroyed, they keep the measured state
+                if destructive and not isinstance(state, CustomState):
                     state._set_measured()
                 else:
                     if isinstance(state, Polarization):
@@ -259,7 +261,7 @@ class ProductState:
 
                 # Remove the mesaured state from the remaining states
                 remaining_states.remove(state)
-                if destructive:
+                if destructive and not isinstance(state, CustomState):
                     state._set_measured()
                 else:
                     if isinstance(state, Polarization):
